@@ -140,7 +140,7 @@ def table():
             res = json.load(open(os.path.join(dest, 'result.json'))) if os.path.exists(os.path.join(dest, 'result.json')) else {}
             notes = open(os.path.join(dest, 'notes.md')).read().strip().splitlines() if os.path.exists(os.path.join(dest, 'notes.md')) else ['']
             what = meta.get('summary') or next((l.strip('# -*').strip() for l in notes if l.strip()), '')
-            caught = ', '.join('%s %s (%s)' % (p, 'caught' if r['caught'] else ('MACHINERY' if r['exit'] == 2 else 'missed'), r['tier']) for p, r in sorted(res.items()))
+            caught = ', '.join('%s %s (%s)' % (p, 'caught' if r['caught'] else ('MACHINERY' if r['exit'] == 2 else 'missed'), r['tier']) for p, r in sorted(res.items()) if '@seed' not in p)
             rows.append('| %s/%s | %s | %s | %s |' % (pid, name, ', '.join(meta['files']), what[:160], caught))
     print('| change | files | what it does | checks |\n|---|---|---|---|')
     print('\n'.join(rows))
